@@ -48,7 +48,7 @@ inductive Kind
   | plain
   | sysEv (d : Nat)
   | entReact (src : Nat) (rt : RType)
-  | dspReact (src : Nat)
+  | dspReact (src : Nat) (h : Handle)
   | entEv (target d : Nat)
   | bcEv (d : Nat)
 deriving DecidableEq, Repr, Inhabited
